@@ -74,7 +74,12 @@ def run(ctx):
     for f in fns:
         for n in walk_no_nested(f.node):
             if isinstance(n, ast.Call) and call_name(n) in ("np.delete", "numpy.delete") and n.args:
-                ctx.ob("R-WRITERS", "C04.2", f, "np.delete is applied to index arrays only, never to the samples or the density table", src(n.args[0]) in ("self.live_points_indices", "self.nested_samples_indices"), f"`{src(n)[:80]}`", node=n)
+                a0_ = n.args[0]
+                inl_d = single_assignments(f.node)
+                for _ in range(3):
+                    if isinstance(a0_, ast.Name) and a0_.id in inl_d:
+                        a0_ = inl_d[a0_.id]  # a local that names the index attribute
+                ctx.ob("R-WRITERS", "C04.2", f, "np.delete is applied to index arrays only, never to the samples or the density table", src(a0_) in ("self.live_points_indices", "self.nested_samples_indices"), f"`{src(n)[:80]}`", node=n)
     # external writers of fields of a store's samples
     ext = 0
     for f in prog.all_functions:
@@ -187,7 +192,14 @@ def run(ctx):
     NB_ = cexpr("sum(self.live_points['logL'] < self.log_likelihood_threshold)")
     ok_all = ok_thr = False
     ret_ok = True
-    paths_ = [pa_ for pa_ in _summ(rm.node) if pa_.end != "raise"]
+    def _feasible(pa_):
+        seen_ = {}
+        for t_, v_ in _gt(pa_, canon):
+            if seen_.setdefault(t_, v_) != v_:
+                return False  # the same test taken both ways on one path
+        return True
+
+    paths_ = [pa_ for pa_ in _summ(rm.node) if pa_.end != "raise" and _feasible(pa_)]
     for pa_ in paths_:
         g_ = dict(_gt(pa_, canon))
         moved_ = [canon(e_[1].args[0]) for e_ in pa_.effects if e_[0] == "call" and canon(e_[1].func) == "self.add_to_nested_samples" and e_[1].args]
